@@ -75,7 +75,7 @@ def enc(rc, v):
     return GL.enc_value(rc, v)
 
 
-def build(rng, quick):
+def build(rng, quick, origin=None):
     ntypes = rng.choice([1, 1, 2])
     chans_all, frames = [], []
     types = []
@@ -94,7 +94,7 @@ def build(rng, quick):
         order += [t] * ty['n']
     rng.shuffle(order)
     recs = [dict(kind='E', type=0, enc=False), dict(kind='E', type=1, enc=False), dict(kind='E', type=3, enc=False), dict(kind='E', type=4, enc=False)]
-    payloads = [GL.file_header(), GL.origin(), GL.channel_eflr(chans_all), GL.frame_eflr([dict(name=ty['name'], channels=ty['channels']) for ty in types])]
+    payloads = [GL.file_header(), origin or GL.origin(), GL.channel_eflr(chans_all), GL.frame_eflr([dict(name=ty['name'], channels=ty['channels']) for ty in types])]
     counters = [0] * ntypes
     frame_nos = [[] for _ in types]
     fno = [0] * ntypes
